@@ -9,11 +9,12 @@ import pipeline
 import talgen
 
 PID = 'C12'
-PROOF_MODULES = ['ChamProofs.Props.C12', 'ChamProofs.Props.C13Exact']
+PROOF_MODULES = ['ChamProofs.Props.C12', 'ChamProofs.Props.C13Exact', 'ChamProofs.Props.C12Loc']
 THEOREMS = ['ChamVerif.keeps_evalT', 'ChamVerif.C12_token_set_when_value_raises', 'ChamVerif.C12_record',
             'ChamVerif.C12_base_exception_untouched', 'ChamVerif.C12_macro_records_then_reraises', 'ChamVerif.C12_records_order',
             'ChamVerif.C12_filler_records_failing_expression', 'ChamVerif.C12_handled_records_dropped',
-            'ChamVerif.locate_main', 'ChamVerif.locate_lib', 'ChamVerif.C12_lib_record']
+            'ChamVerif.locate_main', 'ChamVerif.locate_lib', 'ChamVerif.C12_lib_record',
+            'ChamVerif.C12_record_position_exact']
 LEVEL_TEXT = ('Proved in Lean: the TALES evaluator (python pipes, nested prefixes, string parts — all four mutually recursive functions) never '
               'clears __token (keeps_evalT, induction on the fuel over the mutual block), hence whenever evaluating an expression raises, '
               '__token holds an expression position (C12_token_set_when_value_raises); for an exception in the Exception hierarchy the record '
@@ -24,7 +25,8 @@ LEVEL_TEXT = ('Proved in Lean: the TALES evaluator (python pipes, nested prefixe
               '(C12_filler_records_failing_expression, after the D-12d fix); the fallback of tal:on-error starts with at most the records the '
               'list held when the element was entered (C12_handled_records_dropped, whole-interpreter, after the D-12b fix). '
               'Class preservation, original arguments, RenderError mixin, call-site chains over macros and load: and the absence of partial '
-              'output are judged on the implementation by the oracle; the interpreter by end-to-end correspondence of error records.')
+              'output are judged on the implementation by the oracle; the interpreter by end-to-end correspondence of error records.'
+              " The line and column of a record give back the failing expression's offset exactly (C12_record_position_exact, from C11_location_exact).")
 LEVEL_NOTE = ('Trusted: Lean kernel; the interpreter model; ExceptionFormatter\'s text layout is parsed by the harness (" - Expression:", '
               '" - Location:"). Known findings: D-12c (an exception whose class is exactly Exception cannot get the RenderError mixin: '
               'no location in its message). D-12b (records of handled failures stayed in the error list) and D-12d (a failure inside a slot '
